@@ -15,6 +15,7 @@ type PubMsg struct {
 	Key      []byte `json:"k"`
 	Value    []byte `json:"v"`
 	T        int64  `json:"t"`
+	NS       int    `json:"ns,omitempty"` // sub-microsecond part of the published time (the log keeps microseconds)
 	ZeroTime bool   `json:"zero_time,omitempty"`
 	Garbage  int64  `json:"garbage_offset,omitempty"`
 }
@@ -287,6 +288,12 @@ func (g *GenState) genMsg() PubMsg {
 		m.Value = v
 	}
 	m.T, m.ZeroTime = g.nextTime()
+	if !m.ZeroTime && r.Chance(0.5) {
+		m.NS = 1 + r.Intn(999)
+		if r.Bool() {
+			m.NS = 500 + r.Intn(500)
+		}
+	}
 	if r.Chance(0.3) {
 		m.Garbage = int64(r.Intn(1000)) - 500
 	}
